@@ -36,7 +36,7 @@ func run(c *vk.Ctx) {
 			sql = append(sql, s)
 		}
 	}
-	sem.RunCases(c, base, "mem", c.Pick(400, 3000), gen.Options{}, 3, 12, func(i int, r *rand.Rand, p *sem.Prepared, contextual []*openfgav1.TupleKey) {
+	sem.RunCases(c, base, "mem", c.Pick(400, 3000), gen.Options{WideEvery: 4}, 3, 12, func(i int, r *rand.Rand, p *sem.Prepared, contextual []*openfgav1.TupleKey) {
 		oneCase(c, i, p, contextual, base)
 	})
 	for _, s := range sql {
@@ -68,7 +68,7 @@ func oneCase(c *vk.Ctx, i int, p *sem.Prepared, contextual []*openfgav1.TupleKey
 	}
 	for _, t := range p.Ref.TypeNames() {
 		for _, rel := range p.Ref.RelationNames(t) {
-			for _, o := range gen.Objects(t) {
+			for _, o := range p.Case.ObjectsOf(t) {
 				tree, err := srv.Expand(drive.Req{Store: p.Store, Object: o, Relation: rel, Contextual: contextual})
 				nUsers, nParents := 0, 0
 				want := expected(p.Ref, byNode, o, rel, p.Ref.Rewrite(t, rel), &nUsers, &nParents)
